@@ -15,3 +15,6 @@ func VerifEnumSchema(prefix string, names []string) *EnumSchema {
 func VerifEnumField(es *EnumSchema) *EnumField {
 	return &EnumField{Ref: &RefSchema{Schema: "E", To: es}}
 }
+
+// VerifCachePackages exposes the packages a SchemaCache has built so far.
+func VerifCachePackages(sc *SchemaCache) map[string]*Package { return sc.packages }
